@@ -50,8 +50,9 @@ pub fn clone_h<Tr: ?Sized + Trait + Cloneable, B: Backend, E: Elem + SatisfyTrai
     vp_assert!(elems::total_clones() == n, "VP: clone() must clone each element exactly once");
     if !E::ZST {
         let k = any_usize();
-        assume(k < n);
-        vp_assert!(elems::clones_from(m.id[k]) == 1, "VP: a source element was not cloned exactly once");
+        if k < n {
+            vp_assert!(elems::clones_from(m.id[k]) == 1, "VP: a source element was not cloned exactly once");
+        }
         // separately owned storage
         let po = v.downcast_ref::<E>().unwrap().as_ptr() as usize;
         let pc = c.downcast_ref::<E>().unwrap().as_ptr() as usize;
